@@ -179,8 +179,8 @@ def main(ctx):
     ev.assumptions = ["pylogix status strings mapped by a fixed table (Success=0, Path destination unknown=5, 'Unknown error N'=N); pylogix does not expose extended status",
                       "pylogix learns a tag's type with a one-element read before its first write (reads do not change the tag model)"]
     if ctx.quick:
-        lists = rng.sample(lists, 90)
-    longer = [[rng.choice(basis) for _ in range(rng.randint(5, 10))] for _ in range(12 if ctx.quick else 150)]
+        lists = rng.sample(lists, 250)
+    longer = [[rng.choice(basis) for _ in range(rng.randint(5, 10))] for _ in range(40 if ctx.quick else 150)]
     jobs = [(cfg, mem0, lst, False) for lst in lists] + [(cfg, mem0, lst, True) for lst in longer]
     lines = core.pmap(run_pylogix, jobs, chunksize=4)
     for ln in lines:
@@ -198,7 +198,7 @@ def main(ctx):
                                                                   json.dumps([dict(o, vals=o["vals"][:6]) for o in ln["obs"]])[:300]))
     # raw frames by the reference encoder
     rjobs = []
-    for _ in range(60 if ctx.quick else 600):
+    for _ in range(150 if ctx.quick else 600):
         fs = [rawreg[0]] + [rng.choice(raws) for _ in range(rng.randint(1, 3))]
         rjobs.append((cfg, mem0, fs))
     rconn = [j for j in res.json if j.get("k") == "rawconn"]
@@ -207,7 +207,7 @@ def main(ctx):
         ctx.machinery.append("connected raw frames not emitted")
         return
     opens = [j for j in rconn if j["f"]["kind"] == "fwdopen"]
-    for _ in range(60 if ctx.quick else 600):
+    for _ in range(150 if ctx.quick else 600):
         o = rng.choice(opens)
         fs = [rawreg[0], o]
         for _ in range(rng.randint(1, 4)):
